@@ -130,6 +130,21 @@ int rtosc::enum_key(rtosc::Port::MetaContainer meta, const char *value)
     return E.enum_idx;      /* known symbol (unknown symbols are excluded by the property) */
 }
 
+/* library helper of ports.cpp (not used by the macros as shipped; declared so that a variant that does use it can be
+ * decided): NDEBUG build - its range asserts are compiled out, it returns the integer argument for tags i/c and the
+ * index of the symbol otherwise, WITHOUT clamping */
+int rtosc::enum_key_from_msg(rtosc::Port::MetaContainer meta, const char *msg)
+{
+    __CPROVER_assert(msg == E.msg, "enum_key_from_msg: called on the dispatched message");
+    __CPROVER_assert(E.args[0] != 0, "enum_key_from_msg: argument 0 exists");
+    return (E.args[0] == 'i' || E.args[0] == 'c') ? E.arg0.i : rtosc::enum_key(meta, E.arg0.s);
+}
+extern "C" char rtosc_type(const char *msg, unsigned idx)
+{
+    __CPROVER_assert(msg == E.msg && idx == 0 && E.args[0] != 0, "rtosc_type: called on argument 0 of the dispatched message");
+    return E.args[0];
+}
+
 /* ---------------------------------------------------------------- libc text to number (assumed) */
 extern "C" int atoi(const char *t)
 {
